@@ -414,7 +414,7 @@ class History:
 
     def generate(self):
         g, r = self.g, self.r
-        g.instantiate(preopens=[self.B])
+        g.instantiate(preopens=[self.B], native={0} if r.random() < 0.25 else ())   # sometimes registered with a native descriptor
         g.poke(0, bytes(r.getrandbits(8) for _ in range(ARENA)))
         g.expect_crc()
         if r.random() < 0.2:
@@ -532,6 +532,110 @@ def compare_trees(A, B):
             if not os.path.exists(os.path.join(A, rel, n)):
                 diffs.append('%s exists only in WASI tree' % os.path.join(rel, n))
     return diffs
+
+
+def huge_vectors(chk, w2c2, root, quick):
+    """Vector elements of 2 GiB and more (valid buffers: this driver's guest memory has 40000 pages, lazily committed). The expected
+    count of every call is what the same native readv / writev / preadv returns for a vector of the same element lengths."""
+    import mmap
+    try:
+        big = mmap.mmap(-1, 0x9c000000)
+    except (OSError, ValueError, OverflowError) as ex:
+        chk.observe('huge_vector_part', 'skipped: host cannot reserve the buffers (%s)' % ex, 'set')
+        return
+    hmod = wasih.trampoline(pages=40000)
+    hexe, hplan = wasih.build_driver(w2c2, os.path.join(root, 'build-huge'), hmod, ['-O1', '-g'], name='htramp')
+    d = os.path.join(root, 'hugev')
+    os.makedirs(d, exist_ok=True)
+    content = b'0123456789'
+    open(os.path.join(d, 'f'), 'wb').write(content)
+    small = bytearray(4)
+    cases = []   # (name, call args builder, vector [(addr, len)], native expectation)
+    nat_r = os.open(os.path.join(d, 'f'), os.O_RDONLY)
+    nat_w = os.open('/dev/null', os.O_WRONLY)
+    mv = memoryview(big)
+
+    def native(kind, lens, off=None):
+        bufs = [small if n == 4 else mv[:n] for n in lens]
+        try:
+            if kind == 'read':
+                os.lseek(nat_r, 0, 0)
+                return 0, os.readv(nat_r, bufs)
+            if kind == 'pread':
+                return 0, os.preadv(nat_r, bufs, off)
+            return 0, os.writev(nat_w, bufs)
+        except OSError as ex:
+            return ex.errno, 0
+    vectors = [[4, 0x80000000], [0x80000000], [4, 0x7fffffff], [0x90000000], [4, 0x80000001, 4], [0x9c000000 - 0x2000]]
+    g = wasih.Guest(hplan, 4096)
+    g.instantiate(preopens=[d, '/dev'])
+    g.poke(0x100, b'f')
+    g.poke(0x110, b'null')
+    g.call('path_open', [3, 0, 0x100, 1, 0, (1 << 1) | (1 << 2) | (1 << 5), 0, 0, 0x200])      # -> 5 (read, seek, tell)
+    g.call('path_open', [4, 0, 0x110, 4, 0, (1 << 6), 0, 0, 0x204])                            # -> 6 (write)
+    checks = []
+    for vi, lens in enumerate(vectors):
+        addrs = []
+        a = 0x2000
+        for n in lens:
+            addrs.append(a if n > 4 else 0x1000)
+            if n > 4:
+                a = 0x2000      # the big element always starts at 0x2000 (elements may overlap: only counts and small prefixes are judged)
+        iov = b''.join(x.to_bytes(4, 'little') + n.to_bytes(4, 'little') for x, n in zip(addrs, lens))
+        for kind in ('read', 'pread', 'write'):
+            g.poke(0x300, iov)
+            g.poke(0x400, b'\xee' * 8)
+            g.poke(0x1000, b'\0' * 4)
+            g.poke(0x2000, b'\0' * 16)
+            if kind == 'read':
+                g.call('fd_seek', [5, 0, 0, 0x408])
+                idx = g.call('fd_read', [5, 0x300, len(lens), 0x400])
+            elif kind == 'pread':
+                idx = g.call('fd_pread', [5, 0x300, len(lens), 2, 0x400])
+            else:
+                idx = g.call('fd_write', [6, 0x300, len(lens), 0x400])
+            di = g.dump(0x400, 4)
+            d1 = g.dump(0x1000, 4)
+            d2 = g.dump(0x2000, 16)
+            ti = None
+            if kind == 'read':
+                g.poke(0x410, b'\xee' * 8)
+                g.call('fd_tell', [5, 0x410])
+                ti = g.dump(0x410, 8)
+            checks.append((kind, lens, idx, di, d1, d2, ti, native(kind, lens, 2)))
+    script = g.script()
+    rr, out = wasih.run_script(hexe, d, script, timeout=600)
+    os.close(nat_r)
+    os.close(nat_w)
+    files = {'script.txt': script, 'stderr.txt': rr.err.decode('latin-1')[-3000:], 'log.txt': '\n'.join(out)[-8000:]}
+    if rr.rc != 0:
+        chk.violation('C12:huge-vector:crash', 'vectors with elements >= 2 GiB: driver exit %s' % rr.rc, files)
+        return
+    chk.observe('huge_vector_part', 'ran', 'set')
+    for kind, lens, idx, di, d1, d2, ti, (nerr, ncnt) in checks:
+        chk.ev()
+        chk.distinct(('huge-vector', kind, tuple(lens)))
+        got = wasih.call_result(out[idx])
+        cnt = int.from_bytes(bytes.fromhex(out[di].split(' ')[3]), 'little')
+        what = 'fd_%s with element lengths %s' % (kind, [hex(n) for n in lens])
+        if (got != 0) != (nerr != 0):
+            chk.violation('C12:huge-vector:%s:errno' % kind, '%s: returned errno %s, the native call %s' % (what, got, 'failed with errno %d' % nerr if nerr else 'succeeded with count %d' % ncnt), files)
+            continue
+        if nerr == 0 and cnt != ncnt:
+            chk.violation('C12:huge-vector:%s:count' % kind, '%s: reported %d bytes, the native call transfers %d' % (what, cnt, ncnt), files)
+            continue
+        if nerr == 0 and kind in ('read', 'pread'):
+            data = content[2:] if kind == 'pread' else content
+            b1 = bytes.fromhex(out[d1].split(' ')[3])
+            b2 = bytes.fromhex(out[d2].split(' ')[3])
+            exp1 = data[:4] if lens[0] == 4 else b'\0' * 4
+            rest = data[4:] if lens[0] == 4 else data
+            if b1 != exp1 or b2[:len(rest)] != rest:
+                chk.violation('C12:huge-vector:%s:bytes' % kind, '%s: buffers hold %s / %s, expected %s / %s' % (what, b1, b2[:len(rest)], exp1, rest), files)
+            if ti is not None:
+                pos = int.from_bytes(bytes.fromhex(out[ti].split(' ')[3]), 'little')
+                if pos != ncnt:
+                    chk.violation('C12:huge-vector:read:position', '%s: position afterwards %d, expected %d' % (what, pos, ncnt), files)
 
 
 def main(chk):
@@ -663,6 +767,7 @@ def main(chk):
         if k < 2:
             chk.sample({'history': k, 'first_ops': [l[:100] for l in script.splitlines() if l.startswith('c ')][:6]})
     chk.observe('histories', nh, 'set')
+    huge_vectors(chk, w2c2, root, quick)
     chk.assume('the POSIX twin runs on the same kernel and filesystem, so platform quirks are shared by model and implementation')
     chk.assume('rights sets always contain FD_READ and/or FD_WRITE and none of DATASYNC/ALLOCATE/FILESTAT_SET_SIZE/READDIR; O_TRUNC only with write access')
 
